@@ -7,6 +7,8 @@ proof:  Properties/C06.v (bind_refines: Macro.__call__ == documented binding rel
 tie  :  T5 translator: gen/macro_translate.py turns the current source of Macro.__call__ into a term
         of Lib/PyMacro; the generated Gen_macro.v proves  interpreted source = macro_entry  for all
         signatures, argument tuples and keyword dicts (the for loop by induction over the names);
+        gen/macrobody_translate.py does the same for the parameter-assembly part of compiler.macro_body
+        against macro_body_sig (Lib/PyMacroBody, Gen_macrobody.v);
         K-rt on real Macro objects built by real compilation: the `arguments` list that
         Macro.__call__ hands to the generated function (captured by wrapping Macro._func), the
         TypeError kind, the Python parameter names of the generated function and the Macro
@@ -512,6 +514,15 @@ def run(ctx):
             ctx.trusted.append("Gen_macro (Macro.__call__ source = model, loop by induction): " + " ".join(out.split()))
     except macro_translate.Untranslatable as e:
         ctx.broken.append(f"translator gen/macro_translate.py: Macro.__call__ left the translatable vocabulary: {e}")
+    # T5 (compiler side): the parameter-assembly part of CodeGenerator.macro_body = macro_body_sig
+    import macrobody_translate
+    try:
+        vtext = macrobody_translate.emit(lib.SRC)
+        ok, out = ctx.coq_obligation("Gen_macrobody", vtext, n_obligations=4)
+        if ok:
+            ctx.trusted.append("Gen_macrobody (macro_body parameter assembly source = macro_body_sig, loop by induction): " + " ".join(out.split()))
+    except macrobody_translate.Untranslatable as e:
+        ctx.broken.append(f"translator gen/macrobody_translate.py: macro_body left the translatable vocabulary: {e}")
     real = Real(jinja2)
     sigs = signatures(ctx, 4)
     ex_n, ex_pos, ex_kw = ctx.size((2, 3, 2), (4, 5, 4))
